@@ -38,7 +38,7 @@ def run_one(prop, m, jobs=4):
         with open(path, "w") as f:
             f.write(text)
         cmd = [sys.executable, "-B", "-m", "pyvc.run", prop, "--root", scratch, "--tier", "quick",
-               "--no-evidence", "--no-native", "--jobs", str(jobs)]
+               "--no-evidence", "--jobs", str(jobs)]
         env = dict(os.environ)
         env["PYVC_REPLAY_DIR"] = os.path.join(scratch, "replay")
         env["PYVC_FAIL_FAST"] = "1"
